@@ -479,7 +479,7 @@ func (c *FnCtx) applyCallee(st *State, site ast.Node, key string, sig *types.Sig
 	if isRepo || ct.Fresh {
 		// the callee may allocate: the watermark moves (fresh(x) in its postcondition means pre.alloc < x <= alloc)
 		na := c.smt.freshConst("alloc", SInt)
-		st.assume(mkLe(st.alloc, na))
+		st.pc = append(st.pc, mkLe(st.alloc, na)) // holds whether or not the call is reached (short-circuit guards)
 		if ct.Fresh && len(rs) > 0 {
 			st.assume(mkOr(mkEq(rs[0], intLit(0)), mkAnd(mkLt(st.alloc, rs[0]), mkLe(rs[0], na))))
 		}
